@@ -237,6 +237,21 @@ func Chain(certs ...*Ident) [][]*x509.Certificate {
 // RawDN encodes a distinguished name with exactly the given attributes in the given order, one
 // attribute per RDN: RawDN("CN", "x", "O", "verif"). Used for names which are distinct on the wire
 // but collide under lossy renderings (attribute order, repeated CN, letter case).
+// RawDNT61 is RawDN with every value encoded as TeletexString (T61String, tag 20), the bytes of the value taken as they
+// are (Latin-1 names of old CAs: not valid UTF-8).
+func RawDNT61(pairs ...string) []byte {
+	oid := map[string]asn1.ObjectIdentifier{"O": {2, 5, 4, 10}, "CN": {2, 5, 4, 3}}
+	var rdns []byte
+	for i := 0; i+1 < len(pairs); i += 2 {
+		o, _ := asn1.Marshal(oid[pairs[i]])
+		v := append([]byte{20, byte(len(pairs[i+1]))}, pairs[i+1]...)
+		atv := append([]byte{0x30, byte(len(o) + len(v))}, append(o, v...)...)
+		set := append([]byte{0x31, byte(len(atv))}, atv...)
+		rdns = append(rdns, set...)
+	}
+	return append([]byte{0x30, byte(len(rdns))}, rdns...)
+}
+
 func RawDN(pairs ...string) []byte {
 	oid := map[string]asn1.ObjectIdentifier{"C": {2, 5, 4, 6}, "O": {2, 5, 4, 10}, "OU": {2, 5, 4, 11}, "CN": {2, 5, 4, 3}, "L": {2, 5, 4, 7}, "SERIALNUMBER": {2, 5, 4, 5}}
 	var seq pkix.RDNSequence
